@@ -20,6 +20,7 @@ SHAPES = {
     "empty": lambda: [], "list1": lambda: [1], "list11": lambda: [1, 1], "list12": lambda: [1, 2],
     "list321": lambda: [3, 2, 1], "tuple34": lambda: (3, 4), "range2": lambda: range(2), "range0": lambda: range(0),
     "np78": lambda: np.array([7, 8]), "strs": lambda: ["ab", "c"],
+    "list_n1": lambda: [None, 1], "list_0f": lambda: [0, False, 2], "tuple_e": lambda: ("", "x"),
 }
 BIG = 999999
 
@@ -41,6 +42,11 @@ def token(v):
 def outcome(exc):
     if exc is None:
         return "ok"
+    if isinstance(exc, (StopIteration, RuntimeError)):
+        return type(exc).__name__
+    if type(exc).__name__ in ("DuplicateAgentError", "AgentNotFoundError", "ComponentNotFoundError", "ModelCompleteError",
+                              "SystemNotFoundError"):
+        return type(exc).__name__
     for cls, name in ((Boom, "Boom"), (KeyError, "KeyError"), (AttributeError, "AttributeError"), (TypeError, "TypeError"),
                       (ValueError, "ValueError")):
         if isinstance(exc, cls):
@@ -173,6 +179,30 @@ class Boom(Exception):
 
 
 FAILSTOP = -1
+FAILKIND = "boom"
+# what a failing execution raises: the fixture's own exception, or one of the library's documented errors provoked the ordinary way
+FAILNAMES = {"boom": "Boom", "dup": "DuplicateAgentError", "notfound": "AgentNotFoundError", "comp": "ComponentNotFoundError",
+             "complete": "ModelCompleteError", "nosys": "SystemNotFoundError", "stopiter": "StopIteration"}
+
+
+def _raise_failure(model):
+    from ECAgent.Core import Agent, Component
+    if FAILKIND == "dup":
+        model.environment.add_agent(Agent("twice", model))
+        model.environment.add_agent(Agent("twice", model))
+    elif FAILKIND == "notfound":
+        model.environment.remove_agent("nobody")
+    elif FAILKIND == "comp":
+        Agent("bare", model).remove_component(Component)
+    elif FAILKIND == "nosys":
+        model.systems.remove_system("no such system")
+    elif FAILKIND == "complete":
+        other = Model()
+        other.complete()
+        other.systems.execute_systems(throw_error=True)
+    elif FAILKIND == "stopiter":
+        next(x for x in model.environment if x.id == "nobody")       # the usual idiom; nothing matches
+    raise Boom()
 
 
 class Stopper(System):
@@ -186,7 +216,7 @@ class Stopper(System):
             if self.d:
                 time.sleep(self.d / 1000.0)
             if self.fail:
-                raise Boom()
+                _raise_failure(self.model)
         if t == self.burn and self.recargs is not None:
             # end of the burn-in phase: the collector registered as "c1" is discarded, a fresh one takes its name from the next step on
             sig, cfreq = self.recargs
@@ -215,7 +245,7 @@ class BatchModel(Model):
             raise Boom()
         fail = stop == FAILSTOP
         if fail and d % 2 == 1:
-            raise Boom()
+            _raise_failure(self)
         sig = 1000 * stop + 100 * cstart + 10 * cfreq + d
         self.systems.add_system(Stopper(self, stop, d, fail, burn, (sig, cfreq)))
         self.systems.add_system(Rec("c1", self, sig, cstart, cfreq))
@@ -229,12 +259,14 @@ def _norm_run(data):
 
 
 def run_batch(prog):
-    global FAILSTOP
+    global FAILSTOP, FAILKIND
     events = []
     shared = None          # programs with several calls use ONE ParameterList, edited between the calls with add/remove_parameter
     for op in prog:
-        _, grid, reps, limit, two, procs, failstop = op
+        _, grid, reps, limit, two, procs, failstop = op[:7]
+        failkind = op[7] if len(op) > 7 else "boom"
         FAILSTOP = failstop
+        FAILKIND = failkind
         scalar = {e[0] for e in grid if len(e) > 2 and e[2] == "scalar" and len(e[1]) == 1}    # declared as the bare value, not a list
         grid = [[e[0], e[1]] for e in grid]
 
@@ -273,8 +305,9 @@ def run_batch(prog):
         try:
             kw = {} if limit >= BIG else {"max_timesteps": limit}
             # collector selection: one name / a list holding that one name / a list of two names
-            sel = "list1" if two == "one_list" else ("list2" if two else "str")
-            r = batch_run(BatchModel, params, collectors={"str": "c1", "list1": ["c1"], "list2": ["c1", "c2"]}[sel],
+            sel = {"one_list": "list1", "tuple2": "tuple2", "tuple1": "tuple1"}.get(two, "list2" if two else "str")
+            r = batch_run(BatchModel, params, collectors={"str": "c1", "list1": ["c1"], "list2": ["c1", "c2"], "tuple2": ("c1", "c2"),
+                                                          "tuple1": ("c1",)}[sel],
                           processes=procs, repetitions=reps, **kw)
             res = [_norm_run(x) for x in r]
             shapes = ["dict" if isinstance(x, dict) else ("list" if isinstance(x, list) else type(x).__name__) for x in r]
@@ -282,8 +315,8 @@ def run_batch(prog):
             exc = e
         finally:
             FAILSTOP = -1
-        events.append({"op": "batch_run", "grid": [[n, list(v)] for n, v in grid], "reps": reps, "limit": limit, "two": two is True or two == 1,
-                       "sel": sel, "shapes": shapes, "procs": procs, "failstop": failstop, "out": outcome(exc), "res": res})
+        events.append({"op": "batch_run", "grid": [[n, list(v)] for n, v in grid], "reps": reps, "limit": limit, "two": two is True or two == 1 or two == "tuple2",
+                       "sel": sel, "shapes": shapes, "procs": procs, "failstop": failstop, "failname": FAILNAMES[failkind], "out": outcome(exc), "res": res})
     return events
 
 
@@ -314,7 +347,8 @@ def random_batch_program(rng, procs_choices, fail=None):
         failstop = rng.choice(stops) if rng.random() < 0.25 else -1
     else:
         failstop = fail
-    return [["batch_run", grid, reps, limit, rng.choice([False, False, True, True, "one_list"]), rng.choice(procs_choices), failstop]]
+    return [["batch_run", grid, reps, limit, rng.choice([False, False, True, True, "one_list", "tuple2", "tuple1"]), rng.choice(procs_choices), failstop,
+             rng.choice(sorted(FAILNAMES))]]
 
 
 def empty_batch_programs(procs_choices):
@@ -353,7 +387,8 @@ def fail_position_programs(procs_choices):
     for procs in procs_choices:
         for k in range(4):
             stops = [1, 2, 3, 4]
-            out.append([["batch_run", [["stop", stops], ["d", [k % 2]]], 1, BIG, False, procs, stops[k]]])
+            out.append([["batch_run", [["stop", stops], ["d", [k % 2]]], 1, BIG, False, procs, stops[k],
+                         sorted(FAILNAMES)[(k + procs) % len(FAILNAMES)]]])
     return out
 
 
@@ -427,6 +462,10 @@ def run_search(prog):
                 params = shared
             else:
                 params = {nm: list(v) for nm, v in grid}
+                if (reps + len(table)) % 3 == 0:
+                    # values given as one-shot iterables (a generator, map, iter): the grid is built from them once
+                    wrap = [lambda v: (x for x in v), lambda v: map(lambda x: x, v), iter][(reps + procs) % 3]
+                    params = {nm: wrap(list(v)) for nm, v in grid}
             b, results = grid_search(SearchModel, params, score_func, processes=procs, repetitions=reps, mode=MODES[mode])
             for r in results:
                 params = [[str(k), int(v)] for k, v in r.items() if k not in ("records", "score")]
